@@ -50,9 +50,26 @@ def stream_key(prop, case, msgs):
     return f"{prop} {' / '.join(norm)} [family={case.get('family')} bps={case.get('bps')} mode={case.get('mode')} cfg={case.get('cfg')}]"
 
 
+DESIGN_MC = {
+    # design-level small-scope model checking that belongs to a stream property
+    "C01": [("Schemes.tla", "Schemes.cfg", "Schemes: fold/split, stereo, fixed, LPC lemmas; complete block-size / sample-rate / UTF-8 code spaces")],
+    "C03": [("EncoderSeq.tla", "EncoderSeq.cfg", "EncoderSeq: InfoTruth over every length 0..10, fault and bad-block scenario (BS=3)")],
+    "C04": [("EncoderSeq.tla", "EncoderSeq.cfg", "EncoderSeq: InfoBounds over every length 0..10 (BS=3, MinBS=2)")],
+}
+
+
 def check_stream(prop, tier, seed, only=None, outdir=None, props=None, accept=None):
     res = Result()
     profile, qa, ta = STREAM[prop]
+    mc_states = mc_trans = 0
+    mc_runs = []
+    if not only and props is None:
+        for mod, cfg, what in DESIGN_MC.get(prop, []):
+            r = vlib.run_tlc(mod, cfg, tag=f"{prop}mc{mod[:6]}", workers=4, xmx="4g", timeout=1200)
+            tlc_ok(r, what)
+            mc_states += r["states"]
+            mc_trans += r["generated"]
+            mc_runs.append(what)
     out = outdir or os.path.join(vlib.WORK, f"{prop}-{tier}")
     import shutil
     shutil.rmtree(out, ignore_errors=True)
@@ -85,7 +102,8 @@ def check_stream(prop, tier, seed, only=None, outdir=None, props=None, accept=No
                         conjuncts=mine, case_header=case),
             trace_lines=lines, name=cid))
     res.coverage = dict(
-        states=states, transitions=trans, traces_validated_against_impl=accepted,
+        states=states + mc_states, transitions=trans + mc_trans, traces_validated_against_impl=accepted,
+        design_level_model_checking=mc_runs,
         skipped_oversize_streams=skipped,
         evaluations=summary["cases"], distinct_nontrivial=summary["classes"],
         rule="cases drawn from the generator of DESIGN section 4 (seeded); distinct = distinct class signatures "
@@ -327,8 +345,20 @@ def check_sink(prop, tier, seed):
     import shutil
     shutil.rmtree(out, ignore_errors=True)
     args = ["sink", "--tier", tier, "--seed", seed, "--out", out, "--shards", vlib.JVMS * (2 if tier == "thorough" else 1)]
+    # design level: the two sink implementations as written (at WORD = 8) refine the ideal bit string, exhaustively for every
+    # sequence of three operations
+    mc = []
+    mstates = mtrans = 0
+    for cfg in ("SinkImpl_word_repaired.cfg", "SinkImpl_byte_repaired.cfg"):
+        r = vlib.run_tlc("SinkImpl.tla", cfg, tag=prop + cfg[9:13], workers=8, xmx="6g", timeout=1800)
+        tlc_ok(r, cfg)
+        mstates += r["states"]
+        mtrans += r["generated"]
+        mc.append(f"{cfg}: {r['states']} states")
     summ = vlib.run_fv(args)
     verdicts, states, trans, _ = vlib.run_trace_shards("TraceSink.tla", "TraceSink.cfg", summ["files"], tagp=prop, timeout=3000)
+    states += mstates
+    trans += mtrans
     if len(verdicts) != summ["sequences"]:
         raise ToolError(f"{summ['sequences']} sequences driven but {len(verdicts)} verdicts")
     ok = 0
@@ -350,7 +380,7 @@ def check_sink(prop, tier, seed):
     res.failures = uniq
     res.coverage = dict(states=states, transitions=trans, traces_validated_against_impl=ok,
                         evaluations=summ["sequences"], operations=summ["ops"], distinct_nontrivial=summ["classes"],
-                        user_sink_components=summ["components"], panics=summ["panics"],
+                        user_sink_components=summ["components"], panics=summ["panics"], design_level_model_checking=mc,
                         rule="systematic: every start offset 0..63 x operand type u8/u16/u32/u64 x n in 0..=width x msbs/lsbs (+twoc, write, zero runs, "
                              "align, aligned bytes) followed by two further operations, on MemSink<u8> and MemSink<u64>; plus seeded random sequences; "
                              "plus a user-defined sink (required methods only) receiving streams/frames/headers/subframes. distinct = distinct "
